@@ -18,6 +18,7 @@ import (
 // (verifCheckOutcome).
 
 func verifC09ChunkBuffer() (*verifRef, *verifChunkSource, bool, *verifIntegrity, Buffer) {
+	verifChooseIOError()
 	maxN, k, maxLen := verifC09Bounds()
 	ref := verifNewRef(vnd.Choose(maxN + 1))
 	src := &verifChunkSource{script: verifScript(k, maxLen)}
